@@ -1462,7 +1462,7 @@ fn run_one(cx: &mut Ctx, c: &Value) {
             collector_clock_case(cx, u(&c["maxb"], 2).max(1) as usize, &ops, true)
         }
         "collector_checker" => collector_checker_case(cx, u(&c["maxb"], 2).max(1) as usize, ops.len(), u(&c["pause_every"], 3) as usize, u(&c["timeout_ms"], 2)),
-        "yieldtrace" => ym::yield_trace_case(cx, match u(&c["which"], 1) { w @ (1 | 2 | 3 | 4 | 7) => w, _ => 1 }, u(&c["limit"], 1) as usize, &ops, true),
+        "yieldtrace" => ym::yield_trace_case(cx, match u(&c["which"], 1) { w @ (1 | 2 | 3 | 4 | 7 | 8 | 9 | 10 | 11) => w, _ => 1 }, u(&c["limit"], 1) as usize, &ops, true),
         "buffered" => ym::buffered_case(cx, if u(&c["which"], 0) == 0 { 0 } else { 5 }, u(&c["limit"], 1) as usize, &ops, &ints(&c["gates"]), true),
         "helper" => helper_case(cx, u(&c["which"], 0).min(6), u(&c["rt"], 0) as usize, u(&c["limit"], 1) as usize, &ops),
         _ => {}
@@ -1505,7 +1505,7 @@ pub fn run(args: &Args) {
             b[13] = 100;
             b[15] = if args.thorough { 200 } else { 24 };
             b[18] = if args.thorough { 200 } else { 24 }; // concurrency::parallel_reduce
-            b[19] = if args.thorough { 900 } else { 110 }; // yielding loops driven by hand
+            b[19] = if args.thorough { 900 } else { 90 }; // yielding loops driven by hand
             b[20] = if args.thorough { 600 } else { 90 }; // buffered(max_concurrent) over gated operations
             b
         },
